@@ -105,8 +105,9 @@ def powr(x, r):
 
 def pown(x, m):
     one = x[0] * 0 + 1
-    y = [one] + [one * 0] * (len(x) - 1)
-    for _ in range(m): y = conv(x, y)
+    if m == 0: return [one] + [one * 0] * (len(x) - 1)
+    y = list(x)
+    for _ in range(m - 1): y = conv(x, y)
     return y
 
 def bfwf(x, fp, f0):
